@@ -87,6 +87,11 @@ static inline std::string showMatrix(const std::vector<std::vector<size_t>> &m) 
 }
 // weights travel as integers in units of 1/4; anything else is printed as a hex float so that
 // it can never be mistaken for an exact value
+// `mode wscale a b`: every weight given to a weighted graph is multiplied by a/b (so that sums are not exactly
+// representable: 7/10, 1/3, …) and Dijkstra's distances are printed divided by it, rounded to the quarter
+// unit they denote exactly.  Only for the path-search workloads on graphs whose non-zero weights are all equal
+// (then every route with the same exact length has the same floating-point length too).
+static long double g_wscale = 1.0L;
 static inline std::string showQuarterLD(long double w) {
     long double q = w * 4.0L;
     if (std::isfinite((double)q) && std::fabs((double)q) < 9e15 && q == std::floor(q)) return std::to_string((long long)q);
